@@ -369,13 +369,14 @@ package store
 //@   invariant only-hash-keys: forall k Key @ btHas[k] :: btHas[k] ==> keyTag(k) == 1 && onChain(decHdr(btVal[k])) && decHdr(btVal[k]).Hash() == unkHash(k)
 
 //@ func (*batch).Len(b)
-//@   trusted -- len() of a map is not modelled: only emptiness is related to the membership model
-//@   ensures result >= 0 && (result == 0 <==> forall h uint64 @ has(b.headers, h) :: !has(b.headers, h))
+//@   props C04
+//@   ensures [C04] emptiness: result >= 0 && (result == 0 <==> forall h uint64 @ has(b.headers, h) :: !has(b.headers, h))
 
 //@ func (*batch).GetAll(b)
-//@   trusted -- slices.Collect(maps.Values(m)): iterator functions are outside the modelled fragment
-//@   ensures forall i int :: 0 <= i && i < len(result) ==> has(b.headers, result[i].Height()) && result[i] == b.headers[result[i].Height()]
-//@   ensures forall h uint64 @ has(b.headers, h) :: has(b.headers, h) ==> exists i int :: 0 <= i && i < len(result) && result[i] == b.headers[h]
+//@   props C04, C06
+//@   requires batchOK(b)
+//@   ensures [C04] only-batch-headers: forall i int :: 0 <= i && i < len(result) ==> has(b.headers, result[i].Height()) && result[i] == b.headers[result[i].Height()]
+//@   ensures [C06] every-batch-header: forall h uint64 @ has(b.headers, h) :: has(b.headers, h) ==> exists i int :: 0 <= i && i < len(result) && result[i] == b.headers[h]
 
 //@ func getHeights(headers)
 //@   props C12
